@@ -6,9 +6,9 @@
 (* it and the invariants the model predicts to be violated.  The harness      *)
 (* replays the schedule on the real code with the guarded call-outs.          *)
 EXTENDS Signals, Json, TLC
-CtorPinned == <<"interrupter", "msgptr", "msgsize", "sigint", "sigterm", "stop0">>
-SetPinned == <<"handler", "data">>
-DtorPinned == <<"interrupter0", "stop1", "handler0", "msgsize0">>
+CtorCode == <<"interrupter", "msgptr", "msgsize", "stop0", "sigint", "sigterm">>
+SetCode == <<"handler0", "data", "handler">>
+DtorCode == <<"interrupter0", "stop1", "handler0", "msgsize0">>
 Emit == Terminated =>
   PrintT(<<"CASE", ToJson([nreg |-> nreg, sched |-> sched, log |-> log,
                            pred |-> {v.inv : v \in Violations(log)}])>>)
